@@ -355,6 +355,13 @@ func (t *simTransport) Send(ctx context.Context, d []byte) ([]byte, error) {
 				reply = reply[:k]
 			}
 		}
+	case "cuttail":
+		// the datagram arrives k bytes short (its tail lost): what lies behind it in the receiver's buffer is not part of it
+		if reply != nil {
+			if k := atoi(arg); k < len(reply) {
+				reply = reply[:len(reply)-k]
+			}
+		}
 	case "truncpayload":
 		if reply != nil && len(reply) >= 16 {
 			k := atoi(arg)
